@@ -18,7 +18,156 @@ func init() { props["C17"] = runC17 }
 
 func runC17(c *Ctx) {
 	runC17Ids(c)
+	runC17Two(c)
 	runC17Protocol(c)
+}
+
+// ---- (c) two branches prepared over one pooled connection, then phase two for each: every phase-two
+// command must address the branch it was sent for
+
+func runC17Two(c *Ctx) {
+	w := GetATWorld()
+	xa := w.OpenXA()
+	xa.SetMaxOpenConns(1)
+	rng := NewRng(c.Seed + 11)
+	n := c.Budget(16, 200)
+	for i := 0; i < n; i++ {
+		r := rng.Fork()
+		cid := fmt.Sprintf("c17-t%d", i)
+		d := [2]bool{r.Bool(), r.Bool()}
+		order := []string{"12", "21"}[r.Intn(2)]
+		if !c.Want(cid) {
+			continue
+		}
+		table := w.NewTableName("xa2")
+		w.Eng.CreateTable(memdb.TableDef{Name: table, Cols: []memdb.Column{{Name: "id", Type: memdb.TBigInt}, {Name: "n", Type: memdb.TBigInt, Nullable: true}}, PK: []string{"id"}})
+		w.Eng.InsertRows(table, memdb.Row{int64(1), int64(0)}, memdb.Row{int64(2), int64(0)})
+		w.coord.ResetLog()
+		w.Eng.ResetJournal()
+		var errs [2]error
+		var xid string
+		crash := safeCall(func() {
+			xid, _ = InGlobalTx(cid, func(ctx context.Context) error {
+				for k := 0; k < 2; k++ {
+					if pn := safeCall(func() { _, errs[k] = xa.ExecContext(ctx, "UPDATE "+table+" SET n = 7 WHERE id = ?", k+1) }); pn != "" {
+						panic(pn)
+					}
+				}
+				return nil
+			})
+		})
+		brs := w.coord.RegisteredBranches(xid)
+		idOf := func(k int) string {
+			if k < len(brs) {
+				return fmt.Sprintf("%s-%d", xid, brs[k].BranchID)
+			}
+			return ""
+		}
+		regPos := []int{}
+		for range brs {
+			regPos = append(regPos, 0)
+		}
+		deliver := func(k int) {
+			if k >= len(brs) {
+				return
+			}
+			if d[k] {
+				w.coord.CommitBranch(w.coord.LastSession(), brs[k], 3*time.Second)
+			} else {
+				w.coord.RollbackBranch(w.coord.LastSession(), brs[k], 3*time.Second)
+			}
+		}
+		nPhaseOne := 0
+		for _, e := range w.Eng.Journal() {
+			if strings.HasPrefix(e.Kind, "xa_") || e.Kind == "update" {
+				nPhaseOne++
+			}
+		}
+		if order == "12" {
+			deliver(0)
+			deliver(1)
+		} else {
+			deliver(1)
+			deliver(0)
+		}
+		// ---- trace: the registrations are placed before their XA START
+		var toks []string
+		class, detail := "", ""
+		fail := func(cl, dd string) {
+			if class == "" {
+				class, detail = cl, dd
+			}
+		}
+		kk := 0
+		for _, e := range w.Eng.Journal() {
+			tok := map[string]string{"xa_start": "S", "xa_end": "E", "xa_prepare": "P", "xa_commit": "C", "xa_rollback": "R", "update": "x"}[e.Kind]
+			if tok == "" {
+				continue
+			}
+			if tok == "S" {
+				toks = append(toks, "g")
+			}
+			if e.Err != "" {
+				tok += "!"
+			}
+			toks = append(toks, tok)
+			kk++
+			if kk > nPhaseOne && (e.Kind == "xa_commit" || e.Kind == "xa_rollback") {
+				// phase two: which branch was this command sent for?
+				idx := kk - nPhaseOne - 1
+				want := 0
+				if (order == "12") == (idx == 1) {
+					want = 1
+				}
+				if !strings.Contains(e.SQL, "'"+idOf(want)+"'") {
+					fail("phase_two_addresses_another_branch", fmt.Sprintf("%s sent for branch %s", e.SQL, idOf(want)))
+				}
+			}
+		}
+		rows := w.Eng.Dump(table)
+		st := [2]string{"gone", "gone"}
+		for _, row := range rows {
+			id, _ := row[0].(int64)
+			if v, ok := row[1].(int64); ok && v == 7 && id >= 1 && id <= 2 {
+				st[id-1] = "committed"
+			}
+		}
+		for k := 0; k < 2; k++ {
+			if s := w.Eng.XAState(idOf(k)); s == "PREPARED" || s == "ACTIVE" || s == "IDLE" {
+				st[k] = strings.ToLower(s)
+			}
+		}
+		dec := func(b bool) string {
+			if b {
+				return "commit"
+			}
+			return "rollback"
+		}
+		obs := fmt.Sprintf("%s | err=%d state=%s,%s", strings.Join(toks, " "), b2i(errs[0] != nil || errs[1] != nil), st[0], st[1])
+		c.Out.Case(cid, "C17", fmt.Sprintf("xa2 %s %s %s", dec(d[0]), dec(d[1]), order), obs)
+		if crash != "" {
+			fail("crash", crash)
+		}
+		for k := 0; k < 2; k++ {
+			want := "gone"
+			if d[k] {
+				want = "committed"
+			}
+			if st[k] != want {
+				fail("phase_two_not_applied", fmt.Sprintf("branch %d: decision %s, state %s", k+1, dec(d[k]), st[k]))
+			}
+		}
+		c.Out.Oracle(cid, class == "", class, detail+" | "+obs)
+		c.Out.Tag(cid, "nontrivial=1")
+		c.Out.Count("two-branches." + order)
+		for k := 0; k < 2; k++ {
+			if s := w.Eng.XAState(idOf(k)); s == "PREPARED" {
+				w.Eng.Exec("XA ROLLBACK '" + idOf(k) + "'")
+			}
+		}
+		w.Eng.DropTable(table)
+		_ = regPos
+	}
 }
 
 // ---- (a) the branch identifier
